@@ -357,6 +357,14 @@ class C15(Prop):
                         # question, not a limit, and is not generated
                         base = [0.0, 700.0, -700.0, 1e300, -1e300, 0.5 * math.log(HUGE)][(a + 3 * i) % 6]
                         vals = [(-INF if (a + 5 * i + k * b) % 4 == 0 else base + GRIDV[(a + k) % len(GRIDV)]) for k in range(n)]
+                        if (a + b + i) % 2 == 0 and any(c in out for c in spec):
+                            # the offset varies along the dimensions the operand shares with the output (each output cell has
+                            # its own shift); within one output cell the dynamic range stays small, so the exact limit is demanded
+                            vals = []
+                            for k, cell in enumerate(itertools.product(*[range(sizes[c]) for c in spec])):
+                                key_ = sum((j_ + 1) * (1 + spec.index(c)) for c, j_ in zip(spec, cell) if c in out)
+                                # (moderate offsets only: sums of multiples of 0.25 below 1e4 are exact, nothing is absorbed)
+                                vals.append(-INF if (a + 5 * i + k * b) % 5 == 0 else [0.0, 700.0, -700.0, -800.0, 1500.0, -1500.0][(a + 3 * i + key_) % 6] + GRIDV[(a + k) % len(GRIDV)])
                     else:
                         vals = [GRIDV[(a + 7 * i + k * b + (k * k) // 2) % len(GRIDV)] for k in range(n)]
                     operands.append(np.asarray(vals, dtype=float).reshape(shape))
@@ -402,7 +410,9 @@ class C15(Prop):
                     if got is not None and fin_.any() and not np.allclose(np.broadcast_to(np.asarray(got, dtype=float), plain_.shape)[fin_], plain_[fin_], rtol=1e-12, atol=0):
                         raise Violation("safe-op-value|safesub", f"safesub differs from plain subtraction where that is finite: {np.asarray(minuend).tolist()} - {sub_.tolist()} = {np.asarray(got).tolist()}")
                 elif name == "safediv":
-                    div = np.asarray([[0.0, 1.0, 0.5, TINY, 1e300, 2.0][(a + 1 + i * (b + 2)) % 6] for i in range(n1)], dtype=float).reshape(s1)
+                    # divisors: zero, ordinary, the smallest normal float and subnormals (their reciprocal overflows)
+                    div = np.asarray([r_.choice([0.0, 1.0, 0.5, TINY, 1e300, 2.0, 5e-324, 1e-320, 1e-310]) for i in range(n1)], dtype=float).reshape(s1)
+                    lin = np.asarray([r_.choice([0.0, 0.0, 1.0, 0.5, 3.0, TINY, 1e300, 1e-300]) for i in range(n1)], dtype=float).reshape(s1)
                     got = op(lin, div)
                     if (lin == 0).any() and False:
                         pass
